@@ -260,3 +260,54 @@ Definition well_locked (p : list instr) : bool :=
 (* the same program without the lock, for the sanity theorem *)
 Definition strip_lock (p : list instr) : list instr :=
   filter (fun i => match i with IAcquire | IRelease => false | _ => true end) p.
+
+(* ---------------------------------------------------------------- the id values the opener saw on generated ids *)
+Fixpoint gen_vals (evs : list event) : list str :=
+  match evs with
+  | [] => []
+  | Sent (Some _) (Some v) :: r => v :: gen_vals r
+  | _ :: r => gen_vals r
+  end.
+(* X-request-id values of all requests that consumed a sequence number *)
+Definition generated_ids (st : state) : list str :=
+  concat (map (fun th => gen_vals (out th)) (threads st)).
+
+(* ---------------------------------------------------------------- liveness vocabulary
+   a schedule every step of which does something: the scheduled thread is runnable (not blocked
+   on the lock, not done) -- unless everything is finished already *)
+Fixpoint effective (cp : str) (prog : list instr) (st : state) (sched : list tid) : Prop :=
+  match sched with
+  | [] => True
+  | t :: r => (finished st \/ step cp prog st t <> st) /\ effective cp prog (step cp prog st t) r
+  end.
+
+(* an upper bound on the number of effective steps still possible: every instruction left counts 2
+   (IPass 1, so that the jump ICheck -> IPass decreases), every request not started counts one more
+   than a whole program *)
+Definition iw (i : instr) : nat := match i with IPass => 1%nat | _ => 2%nat end.
+Definition cw (c : list instr) : nat := list_sum (map iw c).
+Definition work (prog : list instr) (th : thread) : nat :=
+  (cw (code th) + S (cw prog) * length (todo th))%nat.
+Definition steps_left (prog : list instr) (st : state) : nat := list_sum (map (work prog) (threads st)).
+
+(* ---------------------------------------------------------------- derived connections
+   A connection object is a root (HttpConn/BAuthConn/... constructed from an address: it creates its own
+   _HttpConnImpl, identified by a number) or a wrapper constructed from another connection.
+   [wrap_rule] (gen/C16_Consts.v) says what _HttpConnBase.__init__ stores in a wrapper's conn_impl;
+   every request method calls self.conn_impl.do_request.  [impl_of c]: the connection whose construction
+   created the implementation object (lock + counter) that requests through c use. *)
+Inductive conn : Type :=
+| CRoot (impl_id : nat)
+| CWrap (parent : conn).
+
+Fixpoint root_of (c : conn) : conn :=
+  match c with CRoot i => CRoot i | CWrap p => root_of p end.
+
+Fixpoint impl_of (c : conn) : conn :=
+  match c with
+  | CRoot i => CRoot i
+  | CWrap p => match wrap_rule with
+               | RShareParent => impl_of p      (* self.conn_impl = parent_conn.conn_impl *)
+               | ROwnImpl => CWrap p            (* a wrapper with an implementation object of its own *)
+               end
+  end.
